@@ -107,7 +107,7 @@ theorem JsRef_mode {text : Bytes} {s : CSt} {k : JsS} (hj : JsRef text s k) : Js
     exact Or.inr ⟨h1, h2, by rw [h3]; exact h4⟩
   · obtain ⟨h1, h2, h3, h4, _⟩ := hj
     exact Or.inr ⟨h1, h2, by rw [h3]; exact h4⟩
-  · obtain ⟨h1, h2, h3, h4, _⟩ := hj
+  · obtain ⟨h1, h2, h3, h4⟩ := hj
     exact Or.inr ⟨h1, h2, by rw [h3]; exact h4⟩
 
 theorem sw_js_lt_false (U : Unicode) {text : Bytes} {s : CSt} (hmode : JsMode s)
@@ -159,7 +159,7 @@ theorem JsRef_lt {text : Bytes} {s : CSt} {k : JsS} (hj : JsRef text s k)
     obtain ⟨h1, h2, h3, h4, _⟩ := hj
     exact ⟨h1, h2, h3, h4⟩
   · next q =>
-    obtain ⟨h1, h2, h3, h4, _⟩ := hj
+    obtain ⟨h1, h2, h3, h4⟩ := hj
     have : jsStep (.strBs q) 0x3c = .str q := by
       rcases h4 with rfl | rfl <;> simp [jsStep, jsStr]
     rw [this]; exact ⟨h1, h2, h3, h4⟩
@@ -301,8 +301,9 @@ theorem js_line {U : Unicode} {text : Bytes} {lo n : Nat} (H : Hole text lo n) {
   by_cases hnl : c = 0x0a ∨ c = 0x0d
   · have hsw : ctxSwitchP U text s c = ({ s with jsComment := 0 }, true) := by
       simp only [ctxSwitchP, hctx, caseJSP, endScriptP, hjc]
-      simp [ContextJS, ContextHTML, ContextTag, ContextQuotedAttr, ContextUnquotedAttr, ContextCSS,
-        ContextCSSString, h3c, hnl]
+      rcases hnl with rfl | rfl <;>
+        simp [ContextJS, ContextHTML, ContextTag, ContextQuotedAttr, ContextUnquotedAttr, ContextCSS,
+          ContextCSSString]
     have hk : jsStep .lineC c = .code true := by
       rcases hnl with rfl | rfl <;> simp [jsStep]
     rw [hk] at hr1
@@ -310,15 +311,16 @@ theorem js_line {U : Unicode} {text : Bytes} {lo n : Nat} (H : Hole text lo n) {
     intro _; right; intro p
     have : jsStep (.code true) 0x0d = .code true := by simp [jsStep, jsCode, ws]
     rw [this]; exact ⟨hctx, rfl, hq⟩
-  · have hsw : ctxSwitchP U text s c = (s, true) := by
+  · -- 0xE2 (the first byte of U+2028 / U+2029) in a line comment is outside `D`
+    have he2 : c ≠ 0xe2 := by
+      intro he2; apply hb; subst he2; simp [jsStep]
+    have hsw : ctxSwitchP U text s c = (s, true) := by
       simp only [ctxSwitchP, hctx, caseJSP, endScriptP, hjc]
       simp [ContextJS, ContextHTML, ContextTag, ContextQuotedAttr, ContextUnquotedAttr, ContextCSS,
-        ContextCSSString, h3c, hnl]
+        ContextCSSString, h3c, hnl, he2]
     simp only [not_or] at hnl
     have hk : jsStep .lineC c = .lineC := by
-      by_cases he2 : c = 0xe2
-      · exfalso; apply hb; subst he2; simp [jsStep]
-      · simp [jsStep, hnl.1, hnl.2, he2]
+      simp [jsStep, hnl.1, hnl.2, he2]
     rw [hk] at hr1
     refine js_tail_free H hlt hc hsw rfl htc hu hr1 (fun p => ⟨hctx, hjc, hq⟩) ?_
     intro h; exact absurd h hnl.1
@@ -376,7 +378,7 @@ theorem js_string {U : Unicode} {text : Bytes} {lo n : Nat} (H : Hole text lo n)
     {c : UInt8} (hc : text[s.pos]? = some c) (h3c : c ≠ 0x3c)
     (hctx : s.ctx = ContextJSString) (hjc : s.jsComment = 0) {q : UInt8} (hq : s.quote = q)
     (hqq : q = 0x22 ∨ q = 0x27) (htc : s.tagCtx = ContextHTML) (hu : s.url = false) {k : JsS}
-    (hk : k = .str q ∨ ((k = .strEsc q ∨ k = .strBs q) ∧ c ≠ q))
+    (hk : k = .str q ∨ k = .strBs q ∨ (k = .strEsc q ∧ c ≠ q ∧ c ≠ 0x5c))
     (hb : jsStep k c ≠ .bad)
     (hr1 : rs text (s.pos + 1) = .raw (.js (jsStep k c)) 0) : StepOK U text n s := by
   obtain ⟨c2, hc2⟩ := H.get (i := s.pos + 1) hlt
@@ -386,38 +388,52 @@ theorem js_string {U : Unicode} {text : Bytes} {lo n : Nat} (H : Hole text lo n)
   have hq0d : (0x0d : UInt8) ≠ q := by rcases hqq with rfl | rfl <;> decide
   by_cases hbs : c = 0x5c
   · subst hbs
+    -- the reference is in `str` / `strBs` and goes to `strEsc`
+    have hk1 : jsStep k 0x5c = .strEsc q := by
+      rcases hk with rfl | rfl | ⟨_, _, h⟩
+      · simp [jsStep, jsStr]
+      · simp [jsStep, jsStr]
+      · exact absurd rfl h
+    rw [hk1] at hr1
     by_cases h1 : c2 = q
-    · subst h1
+    · -- `\q`: the lexer skips the pair, the reference is back in `str`
+      subst h1
       have hlt1 : s.pos + 1 < n := H.lt_of_ne hlt hc2 hq7b
       obtain ⟨hb2, hr2⟩ := raw_rs1 H hr1 (Nat.zero_le _) (by simp) hlt1 hc2
       have hsw : ctxSwitchP U text s 0x5c = ({ s with pos := s.pos + 1 }, true) := by
         simp only [ctxSwitchP, hctx, caseJSStringP, hq, hc2]
         simp [ContextJS, ContextJSString, ContextHTML, ContextTag, ContextQuotedAttr, ContextUnquotedAttr,
           ContextCSS, ContextCSSString]
-      have hk2 : jsStep (jsStep k 0x5c) c2 = .str c2 := by
-        rcases hk with rfl | ⟨rfl | rfl, hne⟩
-        · simp [jsStep, jsStr, hq5c]
-        · exfalso; simp [RawK.step, jsStep, RawK.isBad] at hb2
-        · simp [jsStep, jsStr, hq5c.symm, hq5c]
+      have hk2 : jsStep (.strEsc c2) c2 = .str c2 := by simp [jsStep, hq5c]
       simp only [RawK.step, hk2, hq3c, if_false] at hr2
       refine finish_tail hc hsw (by decide) (by simp) hlt1 ?_
       show R text _ (rs text (s.pos + 1 + 1))
       rw [hr2]
       exact R_js (by simp) (by simp) htc hu ⟨hctx, hjc, hq, hqq⟩
-    · have hsw : ctxSwitchP U text s 0x5c = (s, true) := by
-        simp only [ctxSwitchP, hctx, caseJSStringP, hq, hc2]
-        simp [ContextJS, ContextJSString, ContextHTML, ContextTag, ContextQuotedAttr, ContextUnquotedAttr,
-          ContextCSS, ContextCSSString, h1]
-      have hne : text[s.pos + 1]? ≠ some q := by rw [hc2]; simpa using h1
-      refine finish_tail hc hsw (by decide) (Nat.le_refl _) hlt ?_
-      rw [hr1]
-      rcases hk with rfl | ⟨rfl | rfl, _⟩
-      · have : jsStep (.str q) 0x5c = .strEsc q := by simp [jsStep, jsStr]
-        rw [this]; exact R_js (Nat.zero_le _) (by simp) htc hu ⟨hctx, hjc, hq, hqq, hne⟩
-      · have : jsStep (.strEsc q) 0x5c = .strBs q := by simp [jsStep]
-        rw [this]; exact R_js (Nat.zero_le _) (by simp) htc hu ⟨hctx, hjc, hq, hqq, hne⟩
-      · have : jsStep (.strBs q) 0x5c = .strEsc q := by simp [jsStep, jsStr, hq5c.symm]
-        rw [this]; exact R_js (Nat.zero_le _) (by simp) htc hu ⟨hctx, hjc, hq, hqq, hne⟩
+    · by_cases h2 : c2 = 0x5c
+      · -- `\\`: the lexer skips the pair, the reference is in `strBs` (which behaves as `str`)
+        subst h2
+        have hlt1 : s.pos + 1 < n := H.lt_of_ne hlt hc2 (by decide)
+        obtain ⟨hb2, hr2⟩ := raw_rs1 H hr1 (Nat.zero_le _) (by simp) hlt1 hc2
+        have hsw : ctxSwitchP U text s 0x5c = ({ s with pos := s.pos + 1 }, true) := by
+          simp only [ctxSwitchP, hctx, caseJSStringP, hq, hc2]
+          simp [ContextJS, ContextJSString, ContextHTML, ContextTag, ContextQuotedAttr, ContextUnquotedAttr,
+            ContextCSS, ContextCSSString]
+        have hk2 : jsStep (.strEsc q) 0x5c = .strBs q := by simp [jsStep]
+        simp only [RawK.step, hk2, (by decide : (0x5c : UInt8) ≠ 0x3c), if_false] at hr2
+        refine finish_tail hc hsw (by decide) (by simp) hlt1 ?_
+        show R text _ (rs text (s.pos + 1 + 1))
+        rw [hr2]
+        exact R_js (by simp) (by simp) htc hu ⟨hctx, hjc, hq, hqq⟩
+      · have hsw : ctxSwitchP U text s 0x5c = (s, true) := by
+          simp only [ctxSwitchP, hctx, caseJSStringP, hq, hc2]
+          simp [ContextJS, ContextJSString, ContextHTML, ContextTag, ContextQuotedAttr, ContextUnquotedAttr,
+            ContextCSS, ContextCSSString, h1, h2]
+        have hne : text[s.pos + 1]? ≠ some q := by rw [hc2]; simpa using h1
+        have hne2 : text[s.pos + 1]? ≠ some 0x5c := by rw [hc2]; simpa using h2
+        refine finish_tail hc hsw (by decide) (Nat.le_refl _) hlt ?_
+        rw [hr1]
+        exact R_js (Nat.zero_le _) (by simp) htc hu ⟨hctx, hjc, hq, hqq, hne, hne2⟩
   · by_cases hcq : c = q
     · subst hcq
       have hsw : ctxSwitchP U text s c = ({ s with ctx := ContextJS, quote := 0 }, true) := by
@@ -425,7 +441,8 @@ theorem js_string {U : Unicode} {text : Bytes} {lo n : Nat} (H : Hole text lo n)
         simp [ContextJS, ContextJSString, ContextHTML, ContextTag, ContextQuotedAttr, ContextUnquotedAttr,
           ContextCSS, ContextCSSString, hbs]
       have hk1 : jsStep k c = .code false := by
-        rcases hk with rfl | ⟨_, hne⟩
+        rcases hk with rfl | rfl | ⟨_, hne, _⟩
+        · simp [jsStep, jsStr, hbs]
         · simp [jsStep, jsStr, hbs]
         · exact absurd rfl hne
       rw [hk1] at hr1
@@ -437,14 +454,14 @@ theorem js_string {U : Unicode} {text : Bytes} {lo n : Nat} (H : Hole text lo n)
         simp [ContextJS, ContextJSString, ContextHTML, ContextTag, ContextQuotedAttr, ContextUnquotedAttr,
           ContextCSS, ContextCSSString, hbs, hcq, h3c]
       have hk1 : jsStep k c = .str q := by
-        rcases hk with rfl | ⟨rfl | rfl, _⟩
+        rcases hk with rfl | rfl | ⟨rfl, _⟩
+        · by_cases hnl : c = 10 ∨ c = 13
+          · exfalso; apply hb; rcases hnl with rfl | rfl <;> simp [jsStep, jsStr, hcq]
+          · simp only [not_or] at hnl; simp [jsStep, jsStr, hbs, hcq, hnl.1, hnl.2]
         · by_cases hnl : c = 10 ∨ c = 13
           · exfalso; apply hb; rcases hnl with rfl | rfl <;> simp [jsStep, jsStr, hcq]
           · simp only [not_or] at hnl; simp [jsStep, jsStr, hbs, hcq, hnl.1, hnl.2]
         · simp [jsStep, hbs]
-        · by_cases hnl : c = 10 ∨ c = 13
-          · exfalso; apply hb; rcases hnl with rfl | rfl <;> simp [jsStep, jsStr, hcq]
-          · simp only [not_or] at hnl; simp [jsStep, jsStr, hbs, hcq, hnl.1, hnl.2]
       rw [hk1] at hr1
       refine js_tail_free H hlt hc hsw rfl htc hu hr1 (fun p => ⟨hctx, hjc, hq, hqq⟩) ?_
       intro _; left
@@ -491,12 +508,12 @@ theorem step_js {U : Unicode} {text : Bytes} {lo n : Nat} (H : Hole text lo n) {
     obtain ⟨hctx, hjc, hq, hqq⟩ := hj
     exact js_string H hlt hc h3c hctx hjc hq hqq htc hu (Or.inl rfl) hb' hr1
   · next q =>
-    obtain ⟨hctx, hjc, hq, hqq, hn⟩ := hj
+    obtain ⟨hctx, hjc, hq, hqq, hn, hn2⟩ := hj
     have hcq : c ≠ q := by intro h; subst h; exact hn hc
-    exact js_string H hlt hc h3c hctx hjc hq hqq htc hu (Or.inr ⟨Or.inl rfl, hcq⟩) hb' hr1
+    have hc5c : c ≠ 0x5c := by intro h; subst h; exact hn2 hc
+    exact js_string H hlt hc h3c hctx hjc hq hqq htc hu (Or.inr (Or.inr ⟨rfl, hcq, hc5c⟩)) hb' hr1
   · next q =>
-    obtain ⟨hctx, hjc, hq, hqq, hn⟩ := hj
-    have hcq : c ≠ q := by intro h; subst h; exact hn hc
-    exact js_string H hlt hc h3c hctx hjc hq hqq htc hu (Or.inr ⟨Or.inr rfl, hcq⟩) hb' hr1
+    obtain ⟨hctx, hjc, hq, hqq⟩ := hj
+    exact js_string H hlt hc h3c hctx hjc hq hqq htc hu (Or.inr (Or.inl rfl)) hb' hr1
 
 end ScriggoV.LexCtx
